@@ -590,7 +590,9 @@ def updateEntry (cfg : Cfg) (fuel : Nat) (ent : Nat) (s : Sd) (a : UArgs) : M Un
   let st ← getSt
   whenM (a.hash.isSome && a.hash != (st.side e s).hash) (sideSet cfg fuel e s (.hash a.hash))
   let st ← getSt
-  sideSet cfg fuel e s (.exists_ (if (st.side e s).exists_ = .trashed && a.exists_ = .bool true then .enum .likely else a.exists_))
+  -- state.py:1016: `if ent[side].exists in (TRASHED, LIKELY_TRASHED) and exists is not False` (commit 406cddf)
+  sideSet cfg fuel e s (.exists_ (if ((st.side e s).exists_ = .trashed || (st.side e s).exists_ = .likely) && a.exists_ != .bool false
+    then .enum .likely else a.exists_))
   markIfChanged cfg fuel e s a
 
 /-- `for path_ent in path_ents: ent = path_ent; ent.unignore(IgnoreReason.DISCARDED)` (state.py:1162-1165) -/
@@ -667,13 +669,15 @@ def forgetOid (s : Sd) (k : Oid) : M Unit := do
   | some e =>
     modifySt (fun st => (((st.setOids s (AL.erase (st.oids s) k)).popPathSlot s (st.side e s).path k).csDiscard e))
 
-/-- state.py:725-743 the loader: every side is indexed under `(path, oid)`, absent values included -/
+/-- state.py:725-745 the loader (commit eec8a73): a side without an id is not indexed and does not make the entry pending;
+    a side with an id is indexed under it, and under `(path, id)` when the path is truthy -/
 def loadOne (st : St) (i : Nat) : St :=
   [Sd.L, Sd.R].foldl (fun st s =>
     let sd := st.side i s
-    let st := st.setPathSlot s sd.path sd.oid i
-    let st := st.setOids s (AL.set (st.oids s) sd.oid i)
-    if sd.changed.truthy then st.csAdd i else st) st
+    if sd.oid.isNone then st else
+      let st := if truthyS sd.path then st.setPathSlot s sd.path sd.oid i else st
+      let st := st.setOids s (AL.set (st.oids s) sd.oid i)
+      if sd.changed.truthy then st.csAdd i else st) st
 
 /-- a new `SyncState` over stored entries: `priority`, `_last_gotten` are not restored (state.py:404, 84) -/
 def load (now : Int) (es : List Entry) : St :=
